@@ -182,7 +182,9 @@ class Marker(LaserPath):
             )
 
         s = sign()
-        self.start(init_pos)
+        # a 2D initial position lies at the marker's depth
+        zi = init_pos[2] if len(init_pos) == 3 else self.depth
+        self.start([xi, yi, zi])
         if orientation.lower() == 'x':
             num_passes = math.floor(np.abs(yf - yi) / delta)
             delta = np.sign(yf - yi) * delta
